@@ -9,9 +9,9 @@ from ..build import Builder
 PID = "C19"
 LEVEL = "exploration"
 RULE = ("Enumerated: nser n in 1..N (N=6 quick, 12 thorough) x unit cells {R, C, L, Vcvs (4 ports), Mos, Bipolar, external modules with "
-        "2/3/4 scalar ports, a module with a bus port, a module with a bundle port, a module with scalar ports declared in g,s,d,b order} "
+        "2/3/4 scalar ports, external modules whose ports are named like the generators' own objects (i, units, units_k, inner), a module with a bus port, a module with a bundle port, a module with scalar ports declared in g,s,d,b order} "
         "x every ordered pair of distinct scalar unit ports as the series pair x given by name / by Signal / mixed; MosStack(n) with "
-        "default and given units; Wrapper(m) for every unit. Oracle: the documented chain written as a design spec (n unit instances, "
+        "default and given units; Wrapper(m) for every unit, and a second Wrapper(m) after the first wrapper was edited / exported or m itself gained a port; module units also elaborated before being handed to Series / Wrapper. Oracle: the documented chain written as a design spec (n unit instances, "
         "unit k's second series port and unit k+1's first on a private net, ends on the module's series ports, all other ports - bus and "
         "bundle members included - tied to the same-named module port) evaluated by the reference interpreter and compared up to "
         "isomorphism with the exported package; nser < 1 must raise. Non-trivial = n >= 3, or a unit with >= 3 ports, or a bus / bundle "
@@ -35,6 +35,13 @@ def unit_spec(u):
         return [ext([["a", 1, "in"], ["b", 1, "out"], ["c", 1, "inout"]])], [], [], ["cell", 0], ["a", "b", "c"]
     if u == "ext4":
         return [ext([["a", 1, "in"], ["b", 1, "out"], ["c", 1, "inout"], ["d", 1, "port"]])], [], [], ["cell", 0], ["a", "b", "c", "d"]
+    if u.startswith("adv_"):
+        # unit ports named like the things the generators create themselves (the inter-unit net, the array, its elements, the
+        # wrapper's instance)
+        extra = {"adv_i": ["i"], "adv_units": ["units"], "adv_elems": ["units_1", "units_0"], "adv_inner": ["inner"],
+                 "adv_all": ["i", "units", "units_0", "inner"]}[u]
+        names = ["a", "b"] + extra
+        return [ext([[nm, 1, "inout"] for nm in names])], [], [], ["cell", 0], names
     leaf = ext([["a", 1, "inout"], ["b", 1, "inout"], ["c", 3, "in"]])
     if u == "mod_bus":
         m = {"name": "UnitBus", "sigs": [["p", 1, "inout"], ["n", 1, "inout"], ["w", 3, "in"]], "bundles": [],
@@ -53,12 +60,15 @@ def unit_spec(u):
     raise ValueError(u)
 
 
-UNITS = ["R", "C", "L", "Vcvs", "Mos", "Bipolar", "ext2", "ext3", "ext4", "mod_bus", "mod_bundle", "mod_gsdb"]
+UNITS = ["R", "C", "L", "Vcvs", "Mos", "Bipolar", "ext2", "ext3", "ext4", "mod_bus", "mod_bundle", "mod_gsdb",
+         "adv_i", "adv_units", "adv_elems", "adv_inner", "adv_all"]
 TAG = 7
 
 
-def chain_spec(u, first, second, n):
+def chain_spec(u, first, second, n, extra_port=False):
     cells, bundles, mods, of, _ = unit_spec(u)
+    if extra_port:
+        mods[of[1]]["sigs"].append(["extra", 1, "in"])
     spec = {"cells": cells, "bundles": bundles, "modules": list(mods)}
     iface = model.target_iface(spec, of)
     sigs = []
@@ -75,8 +85,12 @@ def chain_spec(u, first, second, n):
             sigs.append([p[1], p[2], d])
         else:
             buns.append([p[1], p[2], True, False, None, "ctor"])
+    taken = {p[1] for p in iface}
+    ser = "i"
+    while ser in taken:
+        ser += "_"
     if n >= 2:
-        sigs.append(["i", n - 1, "sig"])
+        sigs.append([ser, n - 1, "sig"])
     insts = []
     for k in range(n):
         conns = []
@@ -84,12 +98,15 @@ def chain_spec(u, first, second, n):
             if p[0] == "bun":
                 conns.append([p[1], ["bun", p[1]]])
             elif p[1] == first and n >= 2:
-                conns.append([p[1], ["sig", first] if k == 0 else ["slice", ["sig", "i"], k - 1]])
+                conns.append([p[1], ["sig", first] if k == 0 else ["slice", ["sig", ser], k - 1]])
             elif p[1] == second and n >= 2:
-                conns.append([p[1], ["sig", second] if k == n - 1 else ["slice", ["sig", "i"], k]])
+                conns.append([p[1], ["sig", second] if k == n - 1 else ["slice", ["sig", ser], k]])
             else:
                 conns.append([p[1], ["sig", p[1]]])
-        insts.append({"name": ("units_%d" % k) if n >= 2 else "inner", "of": of, "kind": "inst", "tag": TAG if of[0] == "cell" else 100 + k, "conns": conns})
+        iname = ("units_%d" % k) if n >= 2 else "inner"
+        while iname in taken:
+            iname += "_"
+        insts.append({"name": iname, "of": of, "kind": "inst", "tag": TAG if of[0] == "cell" else 100 + k, "conns": conns})
     spec["modules"].append({"name": "Chain", "sigs": sigs, "bundles": buns, "insts": insts})
     spec["top"] = len(spec["modules"]) - 1
     return spec
@@ -113,6 +130,8 @@ def eval_case(case):
     first, second = case.get("first"), case.get("second")
     out = {}
     try:
+        if case.get("pre_elab"):
+            h.elaborate(unit)  # the unit was elaborated (say, netlisted on its own) before being handed to the generator
         if kind == "series":
             form = case["form"]
             c0 = first if form in ("name", "name_sig") else unit.ports[first]
@@ -120,6 +139,21 @@ def eval_case(case):
             m = Series(unit=unit, conns=(c0, c1), nser=n)
         elif kind == "mosstack":
             m = MosStack(unit=unit, nser=n) if case.get("given") else MosStack(nser=n)
+        elif kind == "wrapper_again":
+            # Wrapper is a plain function: a second wrap of the same cell is a new module reflecting the cell as it is now,
+            # whatever was done to the first wrapper or to the cell in between
+            w1 = Wrapper(unit)
+            if case["edit"] in ("first_wrapper", "both"):
+                w1.add(h.Input(name="added_to_wrapper"))
+                w1.add(h.Signal(name="more"))
+            if case["edit"] in ("cell", "both"):
+                unit.add(h.Input(name="extra"))
+            if case["edit"] == "export_first":
+                h.to_proto(w1)
+            m = Wrapper(unit)
+            if m is w1:
+                out.update(status="fail", sig="second_wrap_is_first_wrapper", detail="Wrapper(m) returned the module it had returned before")
+                return out
         else:
             m = Wrapper(unit)
         pkg = h.to_proto(m)
@@ -134,7 +168,8 @@ def eval_case(case):
         for inst in want_spec["modules"][-1]["insts"]:
             inst["tag"] = None
     else:
-        want_spec = chain_spec(u, first, second, n) if kind != "wrapper" else chain_spec(u, None, None, 1)
+        want_spec = chain_spec(u, first, second, n, extra_port=(kind == "wrapper_again" and case["edit"] in ("cell", "both"))) \
+            if kind not in ("wrapper", "wrapper_again") else chain_spec(u, None, None, 1, extra_port=(kind == "wrapper_again" and case["edit"] in ("cell", "both")))
     try:
         want = model.flatten(want_spec)
         got = pkgread.flatten(pkg, tag_params=design.TAG_PARAMS)
@@ -159,11 +194,18 @@ def cases(tier):
             for form in ("name", "sig", "name_sig", "sig_name"):
                 if form in ("name_sig", "sig_name") and (first, second) != tuple(ports[:2]) and (first, second) != tuple(reversed(ports[-2:])):
                     continue
-                for n in range(1, N + 1):
+                for n in range(1, (min(N, 4) if u.startswith("adv_") else N) + 1):  # adv_*: many pairs, small n suffices
                     yield {"kind": "series", "unit": u, "first": first, "second": second, "form": form, "n": n}
         yield {"kind": "series", "unit": u, "first": ports[0], "second": ports[1], "form": "name", "n": 0}
         yield {"kind": "series", "unit": u, "first": ports[0], "second": ports[1], "form": "name", "n": -1}
         yield {"kind": "wrapper", "unit": u, "n": 1}
+        if u.startswith("mod_"):
+            yield {"kind": "wrapper", "unit": u, "n": 1, "pre_elab": True}
+            for n in (1, 2, 3):
+                for form in ("name", "sig"):
+                    yield {"kind": "series", "unit": u, "first": ports[0], "second": ports[1], "form": form, "n": n, "pre_elab": True}
+        for edit in ("none", "first_wrapper", "export_first") + (("cell", "both") if u.startswith("mod_") else ()):
+            yield {"kind": "wrapper_again", "unit": u, "n": 1, "edit": edit}
     for n in range(0, N + 1):
         yield {"kind": "mosstack", "unit": "Mos", "given": False, "first": "d", "second": "s", "n": n}
         yield {"kind": "mosstack", "unit": "Mos", "given": True, "first": "d", "second": "s", "n": n}
@@ -175,6 +217,10 @@ def record(res, case, v):
     feats = [case["kind"], "unit_" + case["unit"], "n%d" % min(case["n"], 4) + ("+" if case["n"] > 4 else "")]
     if case.get("form"):
         feats.append("form_" + case["form"])
+    if case.get("pre_elab"):
+        feats.append("unit_elaborated_before")
+    if case.get("edit"):
+        feats.append("edit_" + case["edit"])
     st = v["status"]
     if case["n"] < 1:
         if st != "raised":
